@@ -196,6 +196,58 @@ def run(res, tier, build_ok):
                                   ob["method"], n_in, announced, fa[0]["name"], fa[0]["byte"]),
                               {"method": ob["method"], "args": ob["args"], "fill": ob["fill"], "cdb": cdb.hex(), "datain_len": n_in})
                 break
+    # ---- the same command object executed again (polling, retry) over SG_IO against a device that answers short and
+    #      reports the residual: at every send the data-in buffer is still the one the CDB announces
+    from lib import virtos
+    from pyscsi.pyscsi.scsi_device import SCSIDevice
+    sgio_mod = sys.modules["sgio"]
+    vos = virtos.VirtualOS()
+    vos.install()
+    vos.mknod("/dev/sgr")
+    sdev = SCSIDevice("/dev/sgr")
+    seen_lens = []
+
+    def short_backend(f, cdb, do, di):
+        seen_lens.append(len(di))
+        filled = min(len(di), 8)
+        for i in range(filled):
+            di[i] = 0
+        return 0, None, len(di) - filled
+    sgio_mod.BACKEND = short_backend
+    try:
+        for c in data["commands"]:
+            s = std.get(c["module"].split(".")[-1], c["cls"])
+            if s is None or c["cls"].startswith("ATAPassThrough"):
+                continue
+            fa = [f for f in s["fields"] if f["kind"] == "arg" and f["arg"] in ("alloclen", "alloc_len")]
+            op = next((cmds.find_op(e, s["opname"]) for e in sets.values() if cmds.find_op(e, s["opname"]) is not None), None)
+            if not fa or op is None:
+                continue
+            kw = c01.finalize_kwargs(c, c01.make_cases(c, s, rng, 1)[0], rng)
+            kw[fa[0]["arg"]] = min(96, (1 << fa[0]["width"]) - 1)
+            try:
+                cmd = cmds.get_class(c["module"], c["cls"])(op, **kw)
+            except Exception:
+                continue
+            del seen_lens[:]
+            res.case(("re-executed", c["cls"]), {"class": c["cls"], "executions": 3})
+            res.count("same command object executed three times, short answers with residual")
+            for k in range(3):
+                try:
+                    sdev.execute(cmd)
+                except Exception as e:      # noqa
+                    res.violation("cls=%s re-execute raises" % c["cls"], "%s: execution %d of the same command raised %s" % (c["cls"], k + 1, type(e).__name__),
+                                  {"class": c["cls"], "execution": k + 1})
+                    break
+                announced = cmds.std_field_value(cmd.cdb, fa[0])
+                if seen_lens[-1] != announced or len(cmd.datain) != announced:
+                    res.violation("cls=%s re-execute buffer" % c["cls"],
+                                  "%s executed %d time(s) against a device answering short: the CDB announces %d bytes, the transport was handed %d, the command now holds %d" % (
+                                      c["cls"], k + 1, announced, seen_lens[-1], len(cmd.datain)),
+                                  {"class": c["cls"], "execution": k + 1, "cdb": bytes(cmd.cdb).hex(), "handed": seen_lens[-1], "held": len(cmd.datain)})
+                    break
+    finally:
+        sgio_mod.BACKEND = None
     # ---- "for every command": also for one that is inspected / executed only after other commands have been built.
     #      Pairs of the same class with different transfer sizes, built back to back, buffers looked at afterwards.
     for c in data["commands"]:
